@@ -1,5 +1,6 @@
 import Dnp3.Model.OutstationTrace
 import Dnp3.Proofs.OutstationC14
+import Dnp3.Proofs.OutstationC14Trace
 /-!
 # C14 — Unsolicited reporting obeys the start-up, enable, retry and deferral rules
 
@@ -17,9 +18,16 @@ in `Dnp3.Proofs.OutstationSkel` / `OutstationC14`.
   decrements, the series ends at zero;
 * `series_spacing`, `series_end_sets_delay`, `no_series_before_delay`;
 * `read_deferred_not_dropped`, `deferred_*`, `nonread_answered_in_wait`.
+
+Whole-trace theorems (`Dnp3.Proofs.OutstationC14Trace`, over ALL runs `Outstation.run` from `Outstation.start`,
+outputs `traceOuts`; built on the phase-labelled event skeleton `Dnp3.Proofs.OutstationSkel2`):
+* `unsol_trace_monitored`: the executable monitor `uMon` accepts every trace;
+* `null_until_confirmed_trace` (C14.1), `unsol_tx_accounted`, `retries_bounded_trace` (C14.4: at most `1 + n`
+  transmissions of a fragment, every retransmission octet-for-octet the first one, for every IIN history);
+* `one_outstanding_sol`, `one_outstanding_sol_run` (C14.3 for the solicited confirm wait), `solInv_reachable`.
 -/
 namespace Dnp3.Props.C14
-open Dnp3 Dnp3.Proofs.Frame Dnp3.Proofs.Iin Dnp3.Proofs.Skel Dnp3.Proofs.C14
+open Dnp3 Dnp3.Proofs.Frame Dnp3.Proofs.Iin Dnp3.Proofs.Skel Dnp3.Proofs.C14 Dnp3.Proofs.Skel2 Dnp3.Proofs.C14Trace
 
 /-- with unsolicited support disabled nothing unsolicited is ever started -/
 theorem disabled_never_starts (a : Acc) (h : a.1.cfg.unsolicited = false) :
@@ -316,6 +324,116 @@ theorem data_only_enabled (env : OEnv) (s : OState) (inp : OInput) :
       (∃ dl, (Outstation.step env s inp).1.unsol = .ready dl) ∧ NotUW (Outstation.step env s inp).1.mode ∧
       ∀ o ∈ (Outstation.step env s inp).2, OOut.kind o ≠ .unsolWait) :=
   @Dnp3.Proofs.C14.data_only_enabled env s inp
+
+
+/-! ## Whole-trace theorems -/
+
+/-- **the unsolicited-reporting monitor `uMon` accepts every trace** (`unsol_trace_monitored`): for every
+    configuration, environment and input list, running `uMon cfg.retries` over ALL outputs of the run from
+    `Outstation.start cfg evMax` (`traceOuts`: those of the start-up pass, then those of every step, in order)
+    never rejects, and ends with nothing owed (no `unsolWait` callback / retransmission outstanding).  What the
+    monitor checks is spelled out at `uMon`; `null_until_confirmed_trace`, `unsol_tx_accounted` and
+    `retries_bounded_trace` restate its verdict without the monitor. -/
+theorem unsol_trace_monitored (cfg : OCfg) (evMax : Nat) (env : OEnv) (ins : List OInput) :
+    ∃ m', runMon (uMon cfg.retries) {} (traceOuts cfg evMax env ins) = some m' ∧ m'.expect = .nothing :=
+  @Dnp3.Proofs.C14Trace.unsol_trace_monitored cfg evMax env ins
+
+/-- **C14.1 as a trace theorem** (`null_until_confirmed_trace`): in any run from `Outstation.start cfg evMax`
+    (any configuration — with `cfg.unsolicited = false` nothing unsolicited is ever sent —, any environment, any
+    inputs), every transmitted unsolicited response (function octet 0x82) that occurs before the first
+    `unsolConfirmed` callback has exactly 4 octets: it is a NULL response. -/
+theorem null_until_confirmed_trace (cfg : OCfg) (evMax : Nat) (env : OEnv) (ins : List OInput)
+    (pre post : List OOut) (d : Nat) (b : List Nat)
+    (hsplit : traceOuts cfg evMax env ins = pre ++ .tx d b :: post)
+    (hpre : ∀ q, OOut.cb (.unsolConfirmed q) ∉ pre) (hf : b.getD 1 0 = 0x82) : b.length = 4 :=
+  @Dnp3.Proofs.C14Trace.null_until_confirmed_trace cfg evMax env ins pre post d b hsplit hpre hf
+
+/-- **every unsolicited transmission is accounted for** (`unsol_tx_accounted`): in any run, a transmitted
+    fragment with function octet 0x82 is either the first transmission of a series — the very next output is its
+    `unsolWait seq` callback — or a retry — the output just before it is `unsolTimeout q true`. -/
+theorem unsol_tx_accounted (cfg : OCfg) (evMax : Nat) (env : OEnv) (ins : List OInput)
+    (pre post : List OOut) (d : Nat) (b : List Nat)
+    (hsplit : traceOuts cfg evMax env ins = pre ++ .tx d b :: post) (hf : b.getD 1 0 = 0x82) :
+    (∃ seq post', post = .cb (.unsolWait seq) :: post') ∨
+    (∃ q pre', pre = pre' ++ [.cb (.unsolTimeout q true)]) :=
+  @Dnp3.Proofs.C14Trace.unsol_tx_accounted cfg evMax env ins pre post d b hsplit hf
+
+/-- **C14.4 as a trace theorem** (`retries_bounded_trace`): in any run from `Outstation.start cfg evMax`, take
+    any unsolicited series — its first transmission `tx d b0` immediately followed by the callback
+    `unsolWait seq` — and any stretch `mid` of the outputs after it that contains no series mark (no further
+    `unsolWait`, no `unsolConfirmed`, no `unsolTimeout _ false`; a disconnect or a DISABLE_UNSOLICITED may lie in
+    it).  Then
+    1. every `unsolTimeout q true` ("timeout, retrying") in `mid` is for that series (`q = seq`) and the very
+       next output is a transmission to the same destination of exactly the octets `b0` of the first
+       transmission — whatever happened to the IIN bits in between;
+    2. with `cfg.retries = some n` there are at most `n` of them (so at most `1 + n` transmissions of the
+       fragment); with `cfg.retries = none` there is no bound, and 1 still holds;
+    3. every other fragment with function octet 0x82 in `mid` (not in last position) is such a retransmission:
+       destination `d`, octets `b0`. -/
+theorem retries_bounded_trace (cfg : OCfg) (evMax : Nat) (env : OEnv) (ins : List OInput)
+    (pre mid rest : List OOut) (d : Nat) (b0 : List Nat) (seq : Nat)
+    (hsplit : traceOuts cfg evMax env ins = pre ++ [.tx d b0, .cb (.unsolWait seq)] ++ mid ++ rest)
+    (hmid : ∀ o ∈ mid, isSeriesMark o = false) :
+    (∀ m1 q m2, mid = m1 ++ .cb (.unsolTimeout q true) :: m2 → q = seq ∧ ∃ t, m2 ++ rest = .tx d b0 :: t) ∧
+    (∀ n, cfg.retries = some n → (mid.filter isRetryCb).length ≤ n) ∧
+    (∀ m1 d' b' m2, mid = m1 ++ .tx d' b' :: m2 → b'.getD 1 0 = 0x82 → m2 ≠ [] → d' = d ∧ b' = b0) :=
+  @Dnp3.Proofs.C14Trace.retries_bounded_trace cfg evMax env ins pre mid rest d b0 seq hsplit hmid
+
+/-- **a retry is the first transmission, whatever the IIN history** (regression example for the D14-style re-OR,
+    which is NOT present on this path): both retries carry IIN1 = 128 like the first transmission although the
+    current IIN1 is 129 (broadcast received), as the solicited reply between them shows -/
+theorem retry_identical_iin_history_example :
+    (Outstation.run {} (Outstation.start exCfg 10).1 exInsIin).2.map txFrags =
+      [[], [], [(1, [193, 129, 128, 0])], [(1, exData)], [], [(1, exData)],
+       [(1, [195, 129, 129, 0, 52, 2, 7, 1, 0, 0])], [(1, exData)]] :=
+  @Dnp3.Proofs.C14Trace.retry_identical_iin_history_example 
+
+
+/-- **C14.3 for the solicited confirm wait** (`one_outstanding_sol`): a step that begins in the solicited confirm
+    wait (`mode = solWait sr dl c`; `SolInv s`: every stored response is a solicited response, which holds in
+    every reachable state, `solInv_reachable`) — whatever the input —
+    * either emits nothing that opens another solicited confirm wait (`solWait`) and nothing unsolicited (no
+      fragment with function octet 0x82, no `unsolWait` / `unsolTimeout` / `unsolConfirmed` callback), and the task
+      still is in a solicited confirm wait with the same continuation (a repeated READ was echoed, a wrong or
+      unexpected confirm noted, nothing happened) or has died;
+    * or the input is a disconnect;
+    * or the outputs split as `pre ++ post` with `pre` as quiet as that and containing the reason the wait
+      ended: `solConfirmed` (the fragment was confirmed), `solTimeout`, or `solNewRequest`. -/
+theorem one_outstanding_sol (env : OEnv) (s : OState) (inp : OInput) (sr : Series) (dl : Nat) (c : SolCont)
+    (hm : s.mode = .solWait sr dl c) (hi : SolInv s) :
+    ((∀ o ∈ (Outstation.step env s inp).2, solQuietOut o = true) ∧
+      ((∃ sr' dl', (Outstation.step env s inp).1.mode = .solWait sr' dl' c) ∨
+        (Outstation.step env s inp).1.mode = .dead)) ∨
+    inp = .cut ∨
+    (∃ pre post, (Outstation.step env s inp).2 = pre ++ post ∧ (∀ o ∈ pre, solQuietOut o = true) ∧
+      ∃ o ∈ pre, isSolEnd o = true) :=
+  @Dnp3.Proofs.C14Trace.one_outstanding_sol env s inp sr dl c hm hi
+
+/-- **C14.3 for the solicited confirm wait, over runs** (`one_outstanding_sol_run`): in any run from
+    `Outstation.start cfg evMax`, once the task is in a solicited confirm wait (after the inputs `ins1`), then for
+    any further inputs `ins2` without a disconnect, as long as no output reports the end of the wait (no
+    `solConfirmed`, `solTimeout`, `solNewRequest` callback), NO output opens another solicited confirm wait
+    (`solWait`) or belongs to unsolicited reporting (fragment with function octet 0x82, `unsolWait` /
+    `unsolTimeout` / `unsolConfirmed`), and the task still is in a solicited confirm wait with the same
+    continuation (or has died). -/
+theorem one_outstanding_sol_run (cfg : OCfg) (evMax : Nat) (env : OEnv) (ins1 ins2 : List OInput)
+    (sr : Series) (dl : Nat) (c : SolCont)
+    (hm : (Outstation.run env (Outstation.start cfg evMax).1 ins1).1.mode = .solWait sr dl c)
+    (hcut : ∀ i ∈ ins2, i ≠ .cut)
+    (hend : ∀ l ∈ (Outstation.run env (Outstation.run env (Outstation.start cfg evMax).1 ins1).1 ins2).2,
+      ∀ o ∈ l, isSolEnd o = false) :
+    (∀ l ∈ (Outstation.run env (Outstation.run env (Outstation.start cfg evMax).1 ins1).1 ins2).2,
+      ∀ o ∈ l, solQuietOut o = true) ∧
+    ((∃ sr' dl', (Outstation.run env (Outstation.run env (Outstation.start cfg evMax).1 ins1).1 ins2).1.mode =
+        .solWait sr' dl' c) ∨
+      (Outstation.run env (Outstation.run env (Outstation.start cfg evMax).1 ins1).1 ins2).1.mode = .dead) :=
+  @Dnp3.Proofs.C14Trace.one_outstanding_sol_run cfg evMax env ins1 ins2 sr dl c hm hcut hend
+
+
+/-- `SolInv` holds in every state reachable from construction -/
+theorem solInv_reachable (cfg : OCfg) (evMax : Nat) (env : OEnv) (s : OState)
+    (h : Outstation.Reachable cfg evMax env s) : SolInv s :=
+  @Dnp3.Proofs.C14Trace.solInv_reachable cfg evMax env s h
 
 
 end Dnp3.Props.C14
